@@ -343,9 +343,88 @@ class Function:
         if NORMALIZE_LOOPS:
             self._while_to_for()
             self._split_for_condition()
+            self._ternary_store_to_if()
+            self._else_to_continue()
             self._unbrace()
         if NORMALIZE_ALIAS and self.cfg:
             self._inline_const_aliases()
+
+    # N13: an if/else chain that ends a loop body, whose leading branches only assign (clamp and skip), is written with `continue`:
+    #      `if (c) A else B` as the last statement of a loop body is `if (c) { A; continue; } B` when B is a block or a further if.
+    def _else_to_continue(self):
+        JUMPS = ("ReturnStmt", "ContinueStmt", "BreakStmt", "GotoStmt", "CXXThrowExpr")
+
+        for L in range(len(self.nodes)):
+            ln = self.nodes[L]
+            if ln["k"] not in ("ForStmt", "WhileStmt", "DoStmt", "CXXForRangeStmt"):
+                continue
+            body = ln.get("body", -1)
+            if body is None or body < 0 or self.nodes[body]["k"] != "CompoundStmt":
+                continue
+            changed = True
+            while changed:
+                changed = False
+                kids = [x for x in self.nodes[body]["ch"] if x >= 0]
+                if not kids:
+                    break
+                last = kids[-1]
+                n = self.nodes[last]
+                if n["k"] != "IfStmt" or n.get("else", -1) < 0:
+                    break
+                then = n["then"]
+                if any(self.nodes[x]["k"] in JUMPS or "callee" in self.nodes[x] or self.nodes[x]["k"] in ("ForStmt", "WhileStmt", "DoStmt", "IfStmt", "DeclStmt")
+                       for x in self.walk(then)):
+                    break           # only the clamp-and-skip shape: the branch just assigns
+                # only a chain in which some earlier branch of the same loop body already ends in `continue` (the pinned idiom) or whose
+                # else-branch is itself a chain / block: a plain two-way if/else stays as it is
+                els = n["else"]
+                if self.nodes[els]["k"] not in ("IfStmt", "CompoundStmt"):
+                    break
+                base = dict(loc=n["loc"], f=n.get("f"), synthetic=True)
+                self.nodes.append(dict(k="ContinueStmt", ch=[], **base))
+                cont = len(self.nodes) - 1
+                if self.nodes[then]["k"] == "CompoundStmt":
+                    self.nodes[then]["ch"] = list(self.nodes[then]["ch"]) + [cont]
+                else:
+                    self.nodes.append(dict(k="CompoundStmt", ch=[then, cont], **base))
+                    nt = len(self.nodes) - 1
+                    n["then"] = nt
+                    n["ch"] = [nt if x == then else x for x in n["ch"]]
+                tail = list(self.nodes[els]["ch"]) if self.nodes[els]["k"] == "CompoundStmt" else [els]
+                n["ch"] = [x for x in n["ch"] if x != els]
+                n["else"] = -1
+                n["normalized"] = "else to continue"
+                self.nodes[body]["ch"] = kids + [x for x in tail if x >= 0]
+                changed = True
+        self._parent = None
+
+    # N12: a statement `X = c ? a : b;` is `if (c) X = a; else X = b;` (built-in assignment whose value is discarded; X without side effects)
+    def _ternary_store_to_if(self):
+        for i in range(len(self.nodes)):
+            n = self.nodes[i]
+            if n["k"] != "BinaryOperator" or n.get("op") != "=" or not self._value_unused(i):
+                continue
+            r = self.strip(n["ch"][1], casts=False)
+            rn = self.nodes[r]
+            if rn["k"] != "ConditionalOperator" or len(rn["ch"]) != 3:
+                continue
+            lhs = n["ch"][0]
+            if any(self.nodes[x]["k"] in ("CallExpr", "CXXMemberCallExpr", "CXXNewExpr") or
+                   (self.nodes[x]["k"] == "UnaryOperator" and self.nodes[x].get("op") in ("++", "--")) or
+                   (self.nodes[x]["k"] in ("BinaryOperator", "CompoundAssignOperator") and self.nodes[x].get("op", "").endswith("=") and
+                    self.nodes[x]["op"] not in ("==", "!=", "<=", ">=")) for x in self.walk(lhs)):
+                continue
+            c, a, b = rn["ch"]
+            base = dict(loc=n["loc"], f=n.get("f"), t=n.get("t"), synthetic=True)
+            self.nodes.append(dict(k="BinaryOperator", op="=", ch=[lhs, a], **base))
+            t_ = len(self.nodes) - 1
+            lhs2 = self._copy_subtree(lhs)
+            self.nodes.append(dict(k="BinaryOperator", op="=", ch=[lhs2, b], **base))
+            e_ = len(self.nodes) - 1
+            n.clear()
+            n.update(dict(k="IfStmt", cond=c, then=t_, ch=[c, t_, e_], normalized="conditional store", **{kk: vv for kk, vv in base.items() if kk != "t"}))
+            n["else"] = e_
+        self._parent = None
 
     # N10: `for (init; A && B; step) body` is `for (init; A; step) { if (!B) break; body }` when A is the comparison that bounds the
     #      variable the step advances (B is evaluated exactly when A held, immediately before the body, in both forms).
@@ -641,6 +720,7 @@ class Function:
         except (OSError, ValueError, KeyError):
             known = None
         tag = "%s:%s:" % (os.path.basename(self.file), self.name)
+        gone = set()
         for i in list(self.walk()):
             n = self.nodes[i]
             if n["k"] != "DeclStmt":
@@ -704,6 +784,10 @@ class Function:
                 ok = bool(uses)
                 for u in uses:
                     pu = pos.get(u)
+                    x_ = u
+                    while pu is None and x_ >= 0:            # a node the normal form created: the position of the statement that holds it
+                        x_ = self.parent[x_]
+                        pu = pos.get(x_) if x_ >= 0 else None
                     if pu is None or self._writes_between(names, pos[def_node], pu, pos):
                         ok = False
                         break
@@ -716,6 +800,14 @@ class Function:
                     un["k"] = "ParenExpr"
                     un["ch"] = [c]
                 d["inlined"] = True
+                if is_new:
+                    gone.add(def_node)          # the definition itself leaves the tree: the value lives at its uses now
+                    if all(dd.get("inlined") for dd in n.get("decls", [])):
+                        gone.add(i)
+        if gone:
+            for m in self.nodes:
+                if m["k"] == "CompoundStmt" and any(x in gone for x in m["ch"]):
+                    m["ch"] = [x for x in m["ch"] if x not in gone]
         self._parent = None
 
     # ---- tree
